@@ -940,6 +940,9 @@ func runC02(c *core.Ctx) core.Meta {
 		}
 	}
 
+	// ---------------- R02.10 the coalescer applies the signed FLAT offset (c03flat.go) ----------------
+	checkFlatOffsetSigned(c, "R02.10", []string{cuPkg}, 1)
+
 	// ---------------- R02.9 both modes show the ALU the same PC ----------------
 	st9 := c.Rule("R02.9", "the ALU is shared by both modes and some handlers read the PC register (relative branches, s_getpc_b64): both compute units run the ALU with the PC at the address of the executing instruction and add the instruction size afterwards: in the emulator's execution loop no call that runs the ALU is reachable, within one iteration, after the PC was advanced by the instruction size (the timing units advance the PC in their write stage, after the execute stage); and a handler that writes a PC-derived value to an operand computes the same function of PC() in both ALUs", 3)
 	{
